@@ -307,10 +307,9 @@ KEYS = [
     Key("output", "format", E, "html", PNE, "complexity", report_format, ["json", "yaml", "csv", "html", "bogus"], rng=(1, 5),
         domain=["text", "json", "yaml", "csv", "html"], argv=["--select", "complexity,deadcode"], on_result=True, coq_key="key_output_format"),
     # where the report goes
-    # under --config the code reads this key from the file discovered from the target, not from the explicit file
-    # (cmd/pyscn/utils.go resolveOutputDirectory: config.LoadConfigWithTarget("", targetPath)): finding C17-G8
+    # (finding C17-G8, repaired: resolveOutputDirectory used to read this key from the file discovered from the target even under --config)
     Key("output", "directory", E, "", PNE, "complexity", report_directory, ["outdir", "out2"], domain=OUTDIRS, argv=["--json", "--select", "complexity"],
-        on_result=True, explicit_source="discovered"),
+        on_result=True),
     # the risk thresholds (their values in force are the business of the option matrix): what the validation refuses
     # (`low_threshold < 1` is tested on a copy that only takes values > 0, config.go:299: 0 and negative values are never refused)
     Key("complexity", "low_threshold", I, 9, PP, "complexity", path("complexity", "Config", "low_threshold"), [0, 19, 25], rng=(-BIG, 18)),
